@@ -374,7 +374,10 @@ impl C04 {
                 // programs the reference interpreter declines (runaway strings, step limit) are
                 // verified but not run
                 let r = crate::prelude::run_program(&p, &crate::prelude::RefCfg::default());
-                let name = if matches!(r.end, crate::prelude::RefEnd::Discard(_)) { "norun" } else { "" };
+                // ... and so are programs that executed the shape of a recorded exception defect
+                // (the interpreter's state is corrupt from there on)
+                let triggered = !crate::props::diffprop::trigger_suffix(&r.events).is_empty();
+                let name = if matches!(r.end, crate::prelude::RefEnd::Discard(_)) || triggered { "norun" } else { "" };
                 Some((main, mods, None, name.to_string()))
             }
         }
@@ -489,7 +492,7 @@ impl Property for C04 {
         }
         if let Some(t) = &c.trace_problem {
             return Verdict::Fail {
-                sig: "trace-height-mismatch".into(),
+                sig: format!("trace-height-mismatch{}", if family == "programs_triggers" || family == "source" { "+triggers" } else { "" }),
                 detail: format!("{}\n{}", t, if src.len() < 4000 { src.clone() } else { name.clone() }),
             };
         }
